@@ -173,7 +173,7 @@ def run(tier, v):
                                               "specials": True}, timeout=5400)
     files, details = gather(out)
     # 3. judge
-    bad, _, st = E.judge(files, "DestTrace", "DestTrace_c07.cfg", v, details, "dest", keyfn=keyfn, timeout=5400, max_rounds=12)
+    bad, _, st = E.judge(files, "DestTrace", "DestTrace_c07.cfg", v, details, "dest", keyfn=keyfn, timeout=5400, max_rounds=4)
     cov["traces_validated_against_impl"] = s.get("runs", 0)
     cov["receives_ok"] = s.get("runs_ok", 0)
     cov["receives_refused"] = s.get("runs_failed", 0)
